@@ -49,7 +49,7 @@ Depth(t) == 1 + (IF t.ch = <<>> THEN 0
                  ELSE MaxOf({Depth(t.ch[k].t) : k \in DOMAIN t.ch}))
 
 (***************************************************************************)
-(* Canon: alpha-normal form.  Bound names are replaced by 1000+level (de    *)
+(* Canon: alpha-normal form.  Bound names are replaced by 1000000+level (de    *)
 (* Bruijn levels), free names are kept.  Two terms are alpha-equivalent iff *)
 (* their Canon is equal.  Nested binders Bind<Bind<..>> are the successive  *)
 (* entries of bd; a later binder of the same name shadows an earlier one.   *)
@@ -65,9 +65,9 @@ CanonE(t, env, lvl) ==
              LET bd   == t.ch[k].bd
                  nb   == Len(bd)
                  env2 == [x \in (DOMAIN env) \cup Range(bd) |->
-                            IF x \in Range(bd) THEN 1000 + lvl + LastPos(bd, x)
+                            IF x \in Range(bd) THEN 1000000 + lvl + LastPos(bd, x)
                             ELSE env[x]]
-             IN [bd |-> [i \in 1..nb |-> 1000 + lvl + i],
+             IN [bd |-> [i \in 1..nb |-> 1000000 + lvl + i],
                  t  |-> CanonE(t.ch[k].t, env2, lvl + nb)]]]
 
 Canon(t) == CanonE(t, << >>, 0)
@@ -103,13 +103,13 @@ ShapeAll(t) ==
 
 (* Free names in order of first free occurrence of the alpha-normal form.   *)
 FreeSeq(t) ==
-  LET ns == NameSeq(Canon(t)) IN SelectSeq(ns, LAMBDA x : x < 1000)
+  LET ns == NameSeq(Canon(t)) IN SelectSeq(ns, LAMBDA x : x < 1000000)
 
 (* renaming-normal form modulo alpha AND injective renaming of free names   *)
 Shape(t) ==
   LET c  == Canon(t)
-      fs == SelectSeq(NameSeq(c), LAMBDA x : x < 1000)
-      m  == [x \in Names(c) |-> IF x < 1000 THEN PosIn(fs, x) ELSE x]
+      fs == SelectSeq(NameSeq(c), LAMBDA x : x < 1000000)
+      m  == [x \in Names(c) |-> IF x < 1000000 THEN PosIn(fs, x) ELSE x]
   IN Ren(c, m)
 
 (***************************************************************************)
